@@ -216,8 +216,11 @@ func c11r3(w *World, rr *RuleRun) {
 	}
 	// the form selected for an entry matches the family it is retained for (BEP 32 sizes: 6 / 18 bytes)
 	nSel := 0
-	for _, cl := range allAnon(fp) {
-		if cl.Signature.Results().Len() != 2 || !isBoolType(cl.Signature.Results().At(1).Type()) || len(cl.Params) != 1 {
+	for _, cl := range append(allAnon(fp), w.Region[fp]...) {
+		if cl.Signature.Results().Len() != 2 || !isBoolType(cl.Signature.Results().At(1).Type()) || len(cl.Params) < 1 {
+			continue
+		}
+		if relTypeString(cl.Params[0].Type()) != "net.IP" {
 			continue
 		}
 		ipP := w.TS.Of(cl.Params[0])
